@@ -1,6 +1,401 @@
-(* C12 - lemmas about the proxy model. *)
+(* C12 - lemmas about the proxy model (coq/Proxy/Proxy.v). *)
 From ZV Require Import Common.Base Proxy.Proxy.
 Open Scope N_scope.
 
-Lemma ser_struct_nil : ser_struct [] = [].
-Proof. reflexivity. Qed.
+
+(* ------------------------------------------------------------------------------------------ *)
+(* snake_case_to_pascal_case *)
+
+Lemma split_us_nonempty : forall s, split_us s <> [].
+Proof.
+  induction s as [|c s IH]; cbn [split_us].
+  - discriminate.
+  - destruct (c =? US).
+    + discriminate.
+    + destruct (split_us s); discriminate.
+Qed.
+
+(* the split/map/collect transcription and the single pass agree, on every byte string;
+   second component: the same when the scan starts in the middle of a word *)
+Lemma pascal_pass_split : forall s,
+  concat (map pascal_word (split_us s)) = pascal_pass true s /\
+  match split_us s with
+  | w :: ws => map low w ++ concat (map pascal_word ws)
+  | [] => []
+  end = pascal_pass false s.
+Proof.
+  induction s as [|c s [IHa IHb]]; cbn [split_us pascal_pass].
+  - split; reflexivity.
+  - destruct (c =? US) eqn:Ec.
+    + cbn [map concat pascal_word app]. split; exact IHa.
+    + pose proof (split_us_nonempty s) as Hne.
+      destruct (split_us s) as [|w ws]; [contradiction|].
+      cbn [map concat pascal_word app]. split.
+      * rewrite <- IHb. reflexivity.
+      * rewrite <- IHb. reflexivity.
+Qed.
+
+Lemma pascal_eq_pass : forall s, snake_case_to_pascal_case s = pascal_pass true s.
+Proof. intro s. exact (proj1 (pascal_pass_split s)). Qed.
+
+Lemma up_not_us : forall c, c <> US -> up c <> US.
+Proof.
+  intros c Hc. unfold up, is_lower, US in *.
+  destruct (97 <=? c) eqn:E1; cbn [andb]; [|exact Hc].
+  destruct (c <=? 122) eqn:E2; [|exact Hc].
+  apply N.leb_le in E1. apply N.leb_le in E2. lia.
+Qed.
+
+Lemma low_not_us : forall c, c <> US -> low c <> US.
+Proof.
+  intros c Hc. unfold low, is_upper, US in *.
+  destruct (65 <=? c) eqn:E1; cbn [andb]; [|exact Hc].
+  destruct (c <=? 90) eqn:E2; [|exact Hc].
+  apply N.leb_le in E1. apply N.leb_le in E2. lia.
+Qed.
+
+(* the result never contains an underscore (any input) *)
+Lemma pascal_pass_no_us : forall s b, ~ In US (pascal_pass b s).
+Proof.
+  induction s as [|c s IH]; intros b; cbn [pascal_pass].
+  - intros [].
+  - destruct (c =? US) eqn:Ec.
+    + apply IH.
+    + apply N.eqb_neq in Ec. intros [H|H].
+      * destruct b; [exact (up_not_us c Ec H) | exact (low_not_us c Ec H)].
+      * exact (IH false H).
+Qed.
+
+Lemma pascal_no_us : forall s, ~ In US (snake_case_to_pascal_case s).
+Proof. intro s. rewrite pascal_eq_pass. apply pascal_pass_no_us. Qed.
+
+(* an underscore is a word boundary: conversion is compositional over it (any input) *)
+Lemma pascal_pass_app_us : forall a b st,
+  pascal_pass st (a ++ US :: b) = pascal_pass st a ++ pascal_pass true b.
+Proof.
+  induction a as [|c a IH]; intros b st; cbn [app pascal_pass].
+  - rewrite N.eqb_refl. reflexivity.
+  - destruct (c =? US).
+    + apply IH.
+    + cbn [app]. f_equal. apply IH.
+Qed.
+
+Lemma pascal_app_us : forall a b,
+  snake_case_to_pascal_case (a ++ US :: b) = snake_case_to_pascal_case a ++ snake_case_to_pascal_case b.
+Proof. intros. rewrite !pascal_eq_pass. apply pascal_pass_app_us. Qed.
+
+(* identifiers of the corpus: [a-z0-9_]* *)
+Definition snake_char (c : byte) : bool := is_lower c || is_digit c || (c =? US).
+Definition snake (s : bytes) : Prop := Forall (fun c => snake_char c = true) s.
+
+Lemma snake_char_cases : forall c, snake_char c = true ->
+  (97 <= c /\ c <= 122) \/ (48 <= c /\ c <= 57) \/ c = US.
+Proof.
+  intros c H. unfold snake_char, is_lower, is_digit in H.
+  apply orb_true_iff in H. destruct H as [H|H].
+  - apply orb_true_iff in H. destruct H as [H|H]; apply andb_true_iff in H; destruct H as [H1 H2];
+      apply N.leb_le in H1; apply N.leb_le in H2; [left|right; left]; split; assumption.
+  - right; right. apply N.eqb_eq. exact H.
+Qed.
+
+Lemma low_up_snake : forall c, snake_char c = true -> low (up c) = c.
+Proof.
+  intros c H. destruct (snake_char_cases c H) as [[H1 H2]|[[H1 H2]|H1]]; unfold up, low, is_lower, is_upper.
+  - replace (97 <=? c) with true by (symmetry; apply N.leb_le; lia).
+    replace (c <=? 122) with true by (symmetry; apply N.leb_le; lia). cbn [andb].
+    replace (65 <=? c - 32) with true by (symmetry; apply N.leb_le; lia).
+    replace (c - 32 <=? 90) with true by (symmetry; apply N.leb_le; lia). cbn [andb]. lia.
+  - replace (97 <=? c) with false by (symmetry; apply N.leb_gt; lia). cbn [andb].
+    replace (65 <=? c) with false by (symmetry; apply N.leb_gt; lia). reflexivity.
+  - subst c. reflexivity.
+Qed.
+
+Lemma low_snake : forall c, snake_char c = true -> low c = c.
+Proof.
+  intros c H. destruct (snake_char_cases c H) as [[H1 H2]|[[H1 H2]|H1]]; unfold low, is_upper.
+  - replace (c <=? 90) with false by (symmetry; apply N.leb_gt; lia).
+    rewrite andb_false_r. reflexivity.
+  - replace (65 <=? c) with false by (symmetry; apply N.leb_gt; lia). reflexivity.
+  - subst c. reflexivity.
+Qed.
+
+Definition not_us (c : byte) : bool := negb (c =? US).
+
+(* letters and digits are kept, in order, only their case changes; underscores disappear *)
+Lemma pascal_pass_letters : forall s b, snake s -> map low (pascal_pass b s) = filter not_us s.
+Proof.
+  induction s as [|c s IH]; intros b Hs; cbn [pascal_pass filter map].
+  - reflexivity.
+  - inversion Hs as [|c' s' Hc Hs']; subst. unfold not_us at 1.
+    destruct (c =? US) eqn:Ec; cbn [negb].
+    + apply IH; assumption.
+    + cbn [map]. rewrite (IH false Hs'). f_equal.
+      destruct b; [apply low_up_snake; exact Hc | rewrite (low_snake c Hc); apply low_snake; exact Hc].
+Qed.
+
+Lemma pascal_letters : forall s, snake s ->
+  map low (snake_case_to_pascal_case s) = filter not_us s.
+Proof. intros s Hs. rewrite pascal_eq_pass. apply pascal_pass_letters; assumption. Qed.
+
+(* a word is capitalised: its first character upper-cased, the rest untouched *)
+Definition cap (w : bytes) : bytes := match w with [] => [] | c :: r => up c :: r end.
+
+Lemma map_low_snake : forall w, snake w -> map low w = w.
+Proof.
+  induction w as [|c w IH]; intros H; cbn [map]; [reflexivity|].
+  inversion H; subst. rewrite low_snake by assumption. rewrite IH by assumption. reflexivity.
+Qed.
+
+Lemma pascal_word_snake : forall w, snake w -> pascal_word w = cap w.
+Proof.
+  intros [|c r] H; cbn [pascal_word cap]; [reflexivity|].
+  inversion H; subst. rewrite map_low_snake by assumption. reflexivity.
+Qed.
+
+Lemma split_us_snake : forall s, snake s -> Forall snake (split_us s).
+Proof.
+  induction s as [|c s IH]; intros H; cbn [split_us].
+  - repeat constructor.
+  - inversion H as [|c' s' Hc Hs]; subst. specialize (IH Hs).
+    destruct (c =? US).
+    + constructor; [constructor | exact IH].
+    + destruct (split_us s) as [|w ws].
+      * repeat constructor. exact Hc.
+      * inversion IH; subst. constructor; [constructor; assumption | assumption].
+Qed.
+
+Lemma pascal_words : forall s, snake s ->
+  snake_case_to_pascal_case s = concat (map cap (split_us s)).
+Proof.
+  intros s Hs. unfold snake_case_to_pascal_case. f_equal.
+  pose proof (split_us_snake s Hs) as H. induction H as [|w ws Hw _ IH]; cbn [map]; [reflexivity|].
+  rewrite pascal_word_snake by assumption. rewrite IH. reflexivity.
+Qed.
+
+(* input without underscore is one word: this is what happens to an already-Pascal name *)
+Lemma split_us_one : forall s, ~ In US s -> split_us s = [s].
+Proof.
+  induction s as [|c s IH]; intros H; cbn [split_us]; [reflexivity|].
+  destruct (c =? US) eqn:Ec.
+  - apply N.eqb_eq in Ec. exfalso. apply H. left. exact Ec.
+  - rewrite IH; [reflexivity|]. intro Hin. apply H. right. exact Hin.
+Qed.
+
+Lemma pascal_one_word : forall s, ~ In US s -> snake_case_to_pascal_case s = pascal_word s.
+Proof.
+  intros s H. unfold snake_case_to_pascal_case. rewrite split_us_one by assumption.
+  cbn [map concat]. apply app_nil_r.
+Qed.
+
+Lemma pascal_reapplied : forall s,
+  snake_case_to_pascal_case (snake_case_to_pascal_case s) = pascal_word (snake_case_to_pascal_case s).
+Proof. intro s. apply pascal_one_word. apply pascal_no_us. Qed.
+
+Lemma pascal_characterised :
+  (forall s, snake_case_to_pascal_case s = pascal_pass true s) /\
+  (forall s, ~ In US (snake_case_to_pascal_case s)) /\
+  (forall a b, snake_case_to_pascal_case (a ++ US :: b)
+               = snake_case_to_pascal_case a ++ snake_case_to_pascal_case b) /\
+  (forall s, snake s -> map low (snake_case_to_pascal_case s) = filter not_us s) /\
+  (forall s, snake s -> snake_case_to_pascal_case s = concat (map cap (split_us s))).
+Proof.
+  split; [exact pascal_eq_pass|]. split; [exact pascal_no_us|]. split; [exact pascal_app_us|].
+  split; [exact pascal_letters | exact pascal_words].
+Qed.
+
+(* ------------------------------------------------------------------------------------------ *)
+(* the wire forms *)
+
+Lemma wt_none_option : forall s a, wt s a = true -> is_none a = true -> is_option s = true.
+Proof. intros s a Hwt Hn. destruct a; try discriminate. destruct s; try discriminate. reflexivity. Qed.
+
+(* the parameters struct of the shared parameter handling is what the property asks for *)
+Lemma fields_spec : forall ps args,
+  Forall2 (fun p a => wt (p_shape p) a = true) ps args ->
+  ser_struct (fields arginfo_of ps args) = spec_params ps args.
+Proof.
+  intros ps args H. induction H as [|p a ps args Hwt _ IH]; [reflexivity|].
+  cbn [fields spec_params]. unfold ser_struct in *. cbn [flat_map]. rewrite IH. f_equal.
+  unfold ser_field, field_of, arginfo_of, wire_name. cbn [f_skip f_val f_key ai_optional ai_serialized ai_name].
+  destruct (is_none a) eqn:En.
+  - rewrite (wt_none_option _ _ Hwt En). reflexivity.
+  - rewrite andb_false_r. reflexivity.
+Qed.
+
+Lemma method_path_spec : forall iface d,
+  method_path iface d =
+  iface ++ [46] ++ match m_rename d with Some r => r | None => pascal_pass true (m_name d) end.
+Proof. intros. unfold method_path. destruct (m_rename d); [reflexivity|]. rewrite pascal_eq_pass. reflexivity. Qed.
+
+Theorem plain_is_spec : forall iface d args,
+  accepted d = true -> args_ok d args ->
+  wire_plain iface d args = Some (wire_spec iface d args).
+Proof.
+  intros iface d args Hacc Hok. unfold wire_plain. rewrite Hacc. f_equal.
+  unfold ser_call, plain_members, wire_spec. rewrite method_path_spec.
+  unfold args_ok in Hok. rewrite (fields_spec _ _ Hok).
+  unfold accepted in Hacc.
+  destruct (m_params d) as [|p ps]; destruct (m_oneway d); destruct (m_more d);
+    try discriminate; reflexivity.
+Qed.
+
+Lemma tagged_is_plain_members : forall info iface d args,
+  tagged_members info iface d args = plain_members info iface d args.
+Proof. intros. unfold tagged_members, plain_members. destruct (m_params d); reflexivity. Qed.
+
+Theorem chain_is_plain : forall iface d args r,
+  wire_chain iface d args = Some r -> wire_plain iface d args = Some r.
+Proof.
+  intros iface d args r. unfold wire_chain, wire_chain_gen, wire_plain.
+  destruct (accepted d); cbn [andb]; [|discriminate].
+  destruct (m_oneway d); cbn [negb andb]; [discriminate|].
+  rewrite tagged_is_plain_members. intro H. exact H.
+Qed.
+
+Theorem ext_is_plain : forall iface d args r,
+  wire_ext iface d args = Some r -> wire_plain iface d args = Some r.
+Proof.
+  intros iface d args r. unfold wire_ext, wire_ext_gen, wire_plain.
+  destruct (accepted d); cbn [andb]; [|discriminate].
+  destruct (m_oneway d); cbn [negb andb]; [discriminate|].
+  destruct (m_more d); cbn [negb andb]; [discriminate|].
+  rewrite tagged_is_plain_members. intro H. exact H.
+Qed.
+
+(* which forms exist *)
+Lemma plain_exists : forall iface d args, wire_plain iface d args <> None <-> accepted d = true.
+Proof. intros. unfold wire_plain. destruct (accepted d); split; intro H; congruence. Qed.
+
+Lemma chain_exists : forall iface d args,
+  wire_chain iface d args <> None <-> accepted d = true /\ m_oneway d = false.
+Proof.
+  intros. unfold wire_chain, wire_chain_gen. destruct (accepted d); destruct (m_oneway d); cbn [andb negb];
+    split; intro H; try congruence; try (split; reflexivity); destruct H; congruence.
+Qed.
+
+Lemma ext_exists : forall iface d args,
+  wire_ext iface d args <> None <-> accepted d = true /\ m_oneway d = false /\ m_more d = false.
+Proof.
+  intros. unfold wire_ext, wire_ext_gen.
+  destruct (accepted d); destruct (m_oneway d); destruct (m_more d); cbn [andb negb];
+    split; intro H; try congruence; try (repeat split; reflexivity); destruct H as [? [? ?]]; congruence.
+Qed.
+
+Lemma forms_exist : forall iface d args,
+  (wire_plain iface d args <> None <-> accepted d = true) /\
+  (wire_chain iface d args <> None <-> accepted d = true /\ m_oneway d = false) /\
+  (wire_ext iface d args <> None <-> accepted d = true /\ m_oneway d = false /\ m_more d = false).
+Proof. intros. split; [apply plain_exists | split; [apply chain_exists | apply ext_exists]]. Qed.
+
+(* ---- the generators of the pinned commit 2e9d6f3 did not have the property ---- *)
+
+Definition b_do_it : bytes := [100;111;95;105;116].            (* do_it *)
+Definition b_name : bytes := [110;97;109;101].                 (* name *)
+Definition b_theName : bytes := [116;104;101;78;97;109;101].   (* theName *)
+Definition b_opt : bytes := [111;112;116].                     (* opt *)
+Definition b_iface : bytes := [111;114;103;46;101;120].        (* org.ex *)
+
+(* do_it(#[zlink(rename = "theName")] name: &str, opt: Option<u32>) called with ("n", None) *)
+Definition d_do_it : mdecl :=
+  {| m_name := b_do_it; m_rename := None; m_more := false; m_oneway := false;
+     m_params := [ {| p_name := b_name; p_rename := Some b_theName; p_shape := ShStr |};
+                   {| p_name := b_opt; p_rename := None; p_shape := ShOpt ShNum |} ] |}.
+Definition a_do_it : list aval := [AJ (JStr [110]); ANone].
+
+Lemma chain_v0_refuted : exists iface d args,
+  args_ok d args /\ wire_chain_v0 iface d args <> None /\
+  wire_chain_v0 iface d args <> wire_plain iface d args.
+Proof.
+  exists b_iface, d_do_it, a_do_it. split; [|split].
+  - repeat constructor.
+  - vm_compute. discriminate.
+  - vm_compute. discriminate.
+Qed.
+
+Lemma ext_v0_refuted : exists iface d args,
+  args_ok d args /\ wire_ext_v0 iface d args <> None /\
+  wire_ext_v0 iface d args <> wire_plain iface d args.
+Proof.
+  exists b_iface, d_do_it, a_do_it. split; [|split].
+  - repeat constructor.
+  - vm_compute. discriminate.
+  - vm_compute. discriminate.
+Qed.
+
+(* #[zlink(more)] watch(): chain_watch() carried no "more" *)
+Definition d_watch : mdecl :=
+  {| m_name := [119;97;116;99;104]; m_rename := None; m_more := true; m_oneway := false; m_params := [] |}.
+
+Lemma chain_v0_more_refuted : exists iface d args,
+  args_ok d args /\ wire_chain_v0 iface d args <> None /\
+  wire_chain_v0 iface d args <> wire_plain iface d args.
+Proof.
+  exists b_iface, d_watch, []. split; [|split].
+  - constructor.
+  - vm_compute. discriminate.
+  - vm_compute. discriminate.
+Qed.
+
+(* ------------------------------------------------------------------------------------------ *)
+(* replies *)
+
+Lemma rs_run_one : forall lows,
+  rs_run (rs_init 1) lows = (upto_final lows, has_final lows).
+Proof.
+  induction lows as [|r rest IH]; [reflexivity|].
+  cbn [upto_final has_final existsb].
+  change (rs_run (rs_init 1) (r :: rest)) with
+    (let (items, ended) := rs_run (rs_step (rs_init 1) r) rest in (r :: items, ended)).
+  destruct (continues_true r) eqn:Ec.
+  - assert (Hl : is_lerr r = false) by (destruct r; try discriminate; reflexivity).
+    unfold rs_step. rewrite Hl, Ec. cbn [orb rs_idx rs_count rs_init Nat.leb].
+    change {| rs_count := 1; rs_idx := 0; rs_done := false |} with (rs_init 1).
+    rewrite IH. reflexivity.
+  - cbn [negb orb].
+    assert (Hd : rs_done (rs_step (rs_init 1) r) = true).
+    { unfold rs_step. rewrite Ec. cbn [rs_done rs_idx rs_count rs_init].
+      destruct (is_lerr r); reflexivity. }
+    destruct rest as [|r' rest']; cbn [rs_run]; rewrite Hd; reflexivity.
+Qed.
+
+(* class of the result = class the low-level receive assigned *)
+Definition same_class (r : lowres) (o : outcome) : Prop :=
+  match r, o with
+  | LErr e, OErr e' => e = e'
+  | LMErr e, OMErr e' => e = e'
+  | LReply (Some v) _, OOk v' => v = v' \/ v' = P_UNIT
+  | LReply None _, OOk v' => v' = P_UNIT
+  | LReply None _, OErr e' => e' = E_MISSING
+  | _, _ => False
+  end.
+
+Lemma map_reply_class : forall u r, same_class r (map_reply u r).
+Proof.
+  intros u r. destruct r as [p c|e|e]; cbn [map_reply same_class]; try reflexivity.
+  destruct u; destruct p; cbn; auto.
+Qed.
+
+Theorem reply_mapping : forall d u,
+  (* regular method: one receive, mapped *)
+  (m_oneway d = false -> m_more d = false -> forall r rest,
+     plain_outcome d u (r :: rest) = [IOut (map_reply u r)]) /\
+  (* streaming method: one item per reply up to and including the final one, then the end *)
+  (m_oneway d = false -> m_more d = true -> forall lows,
+     plain_outcome d u lows =
+     map (fun r => IOut (map_reply u r)) (upto_final lows) ++ (if has_final lows then [IEnd] else [])) /\
+  (* oneway method: nothing is received *)
+  (m_oneway d = true -> forall lows, plain_outcome d u lows = [ISent]) /\
+  (* every mapped result is in the class the low-level receive assigned *)
+  (forall r, same_class r (map_reply u r)).
+Proof.
+  intros d u. repeat split.
+  - intros Ho Hm r rest. unfold plain_outcome. rewrite Ho, Hm. reflexivity.
+  - intros Ho Hm lows. unfold plain_outcome. rewrite Ho, Hm, rs_run_one. reflexivity.
+  - intros Ho lows. unfold plain_outcome. rewrite Ho. reflexivity.
+  - apply map_reply_class.
+Qed.
+
+(* a chain over one owed reply hands out the same replies, unmapped *)
+Lemma chain_outcome_one : forall lows,
+  chain_outcome 1 lows = map ILow (upto_final lows) ++ (if has_final lows then [IEnd] else []).
+Proof. intro lows. unfold chain_outcome. rewrite rs_run_one. reflexivity. Qed.
